@@ -154,7 +154,7 @@ func checkC15(c *core.Ctx) error {
 			}
 			return true
 		})
-		if !hasTr || !hasTf || !anyInterior {
+		if (!hasTr && !hasTf) || !anyInterior {
 			return
 		}
 		cons := c.FuncName(pkg, fd)
